@@ -6,7 +6,7 @@ import Babylon.Exec.Inv4
 namespace Babylon.Exec
 open Babylon.Core
 
-macro "s_close" : tactic => `(tactic| (
+macro "s_close_D" : tactic => `(tactic| (
   (try simp only [balExited] at *)
   (try simp only [exec_proj, upd_same, Q.claim_fold, Q.bump_fold] at *)
   first
@@ -15,7 +15,7 @@ macro "s_close" : tactic => `(tactic| (
         afterLdRunB, role_chk, popctx_role,
         Q.itemAt_setSt, Q.stAt_setSt, Q.itemAt_take, Q.stAt_take, Q.length_take, Q.length_setSt, Q.popIdx_setSt, Q.popIdx_take,
         Q.itemAt_claim, Q.stAt_claim, Q.popIdx_claim, Q.length_claim, Q.itemAt_bump, Q.stAt_bump, Q.popIdx_bump, Q.length_bump,
-        Q.itemAt_some_lt, Q.stAt_some_lt]))
+        Q.itemAt_some_lt, Q.stAt_some_lt, Q.take_old]))
 
 section
 variable {c : Cfg} {s s' : State} {t : Nat} {lb : Lbl}
@@ -57,6 +57,9 @@ theorem Inv4.step_e1 (I : Inv1 c s) (J : Inv2 c s) (B : Inv2b s) (K : Inv3 c s) 
   have hnm2 := noteMarker_ne_none
   have hkx : ∀ p k, s.pc t = .gPub p k → k ≠ .wStopping ∧ k ≠ .exited := by
     intro p k hp; rw [hp] at hwf; exact ne_exit_cont c none k hwf
+  have hr4 := I.r4
+  have hkj : ∀ p k, s.pc t = .gPub p k → (∀ n, k = .sJoinW n → n = 0) ∧ (k = .sEnd → c.workers = []) := by
+    intro p k hp; rw [hp] at hwf; exact cont_join c none k hwf
   have hne1 := dispatchPc_ne
   have hne2 := onEmpty_ne
   have hst0 : ∀ k, s.pc t = .gTake .stop k → (s.pc t).role = .stopper ∧ (s.pc t).pastB = true := by
@@ -74,22 +77,54 @@ theorem Inv4.step_e1 (I : Inv1 c s) (J : Inv2 c s) (B : Inv2b s) (K : Inv3 c s) 
     have hit := (isTask_iff cl.item).mp (l4 k0 i0 cl hcell)
     obtain ⟨idx, hidx⟩ := hit
     clear hcell l4
-    cases ctx <;> simp only [hidx] at * <;> s_close
+    cases ctx <;> simp only [hidx] at * <;> s_close_D
   case wRecv i0 cl hpc hcell hfull =>
     have hc1 := Q.itemAt_eq _ _ _ hcell
     have hc2 := Q.stAt_eq _ _ _ hcell
     have hc3 : i0 < s.g.cells.length := Q.stAt_some_lt _ _ _ hc2
     rw [hfull] at hc2
     clear hcell l4
-    cases hx : cl.item <;> simp only [hx] at * <;> s_close
+    cases hx : cl.item <;> simp only [hx] at * <;> s_close_D
   case gPublish p k hpc hfree hst =>
     have hc3 : p < s.g.cells.length := Q.stAt_some_lt _ _ _ hst
-    clear l4; s_close
+    clear l4; s_close_D
   case sLd hpc =>
     skip
-    clear l4; s_close
-  all_goals (clear l4; try s_close)
-  all_goals (trace_state; sorry)
+    clear l4; s_close_D
+  case gTakeTask id0 k hpc =>
+    clear l4
+    dsimp only at hw ⊢
+    have hwt : w ≠ t := by
+      intro e; subst e; simp [upd] at hw
+    have hw' : s.pc w = .wStopping ∨ (s.pc w = .exited ∧ w ∈ c.workers) := by simpa [upd, hwt] using hw
+    obtain ⟨h1, h2⟩ := e1 w hw'
+    refine ⟨h1, fun j hj => ?_⟩
+    obtain ⟨h3, h4⟩ := h2 j hj
+    have := Q.take_old s.g (.task id0) _ j h3
+    exact ⟨this.1, by rw [this.2]; exact h4⟩
+  case gTakeStop k hpc =>
+    clear l4
+    dsimp only at hw ⊢
+    have hwt : w ≠ t := by
+      intro e; subst e; simp [upd] at hw
+    have hw' : s.pc w = .wStopping ∨ (s.pc w = .exited ∧ w ∈ c.workers) := by simpa [upd, hwt] using hw
+    obtain ⟨h1, h2⟩ := e1 w hw'
+    refine ⟨h1, fun j hj => ?_⟩
+    obtain ⟨h3, h4⟩ := h2 j hj
+    have := Q.take_old s.g .stop _ j h3
+    exact ⟨this.1, by rw [this.2]; exact h4⟩
+  case gTakeWakeup k hpc =>
+    clear l4
+    dsimp only at hw ⊢
+    have hwt : w ≠ t := by
+      intro e; subst e; simp [upd] at hw
+    have hw' : s.pc w = .wStopping ∨ (s.pc w = .exited ∧ w ∈ c.workers) := by simpa [upd, hwt] using hw
+    obtain ⟨h1, h2⟩ := e1 w hw'
+    refine ⟨h1, fun j hj => ?_⟩
+    obtain ⟨h3, h4⟩ := h2 j hj
+    have := Q.take_old s.g .wakeup _ j h3
+    exact ⟨this.1, by rw [this.2]; exact h4⟩
+  all_goals (clear l4; try s_close_D)
 
 end
 end Babylon.Exec
